@@ -229,7 +229,7 @@ func runScenario(r *rand.Rand, scn int, nq, nwrites int, garble bool) ([]Ev, err
 	// queries with distinct filters
 	seen := map[string]bool{}
 	for len(s.queries) < nq {
-		f, a := sqlzoo.RandomFilter(r, []string{"id", "org", "name", "age", "nick", "kind", "small", "note"})
+		f, a := sqlzoo.RandomFilter(r, []string{"id", "org", "name", "age", "nick", "kind", "small", "note", "blob"})
 		if len(s.queries) == 0 && scn%2 == 0 {
 			// directed: a query that only the last row can match, so that a statement changing several rows
 			// reaches it through the last row images of its rows event alone
